@@ -36,9 +36,13 @@ def exc_palette():
             lambda: ZeroDivisionError(), lambda: OSError(2, 'nope'), lambda: AssertionError(),
             lambda: StopIteration(), lambda: NotImplementedError('ni'), lambda: BadStr('a'), lambda: BadRepr('b'),
             lambda: LookupError(), lambda: MemoryError('m'), lambda: AttributeError('attr'),
-            lambda: TypeError('some type error'), lambda: IndexError(5), lambda: RuntimeError('\x00\x01\x7f <script>')]
+            lambda: TypeError('some type error'), lambda: IndexError(5), lambda: RuntimeError('\x00\x01\x7f <script>'),
+            # text that looks like template / format syntax
+            lambda: KeyError('{missing}'), lambda: ValueError('braces {0} {x!r} {'), lambda: RuntimeError('}{ %s %(a)s {{}}')]
 
 
+# detail texts of HTTP errors (plain, format-like, markup-like)
+DETAILS = ['det-%d', 'det-%d {x} {0} {', 'det-%d }{ <b>&amp;</b> %%s', 'det-%d\nsecond line {y}']
 NONRESP = ['a string', None, 5, 3.5, {'a': 1}, [1, 2], b'bytes', True]
 ACCEPTS = [None, 'text/html', 'application/json', 'application/xml', 'text/plain', '*/*', 'image/png',
            'garbage;;;', 'text/html;q=0.1, application/json']
@@ -86,13 +90,13 @@ def build(cfg, W):
         cls = https[n % len(https)]
         W.http = cls
         if beh == 'raiseHttpB':
-            raise cls('det-%d' % n)
+            raise cls(detail=DETAILS[n % len(DETAILS)] % n)
         if beh == 'returnHttpB':
-            return cls('det-%d' % n)
+            return cls(detail=DETAILS[n % len(DETAILS)] % n)
         if beh == 'raiseHttpNB':
-            raise cls('det-%d' % n, is_breaking=False)
+            raise cls(detail=DETAILS[n % len(DETAILS)] % n, is_breaking=False)
         if beh == 'returnHttpNB':
-            return cls('det-%d' % n, is_breaking=False)
+            return cls(detail=DETAILS[n % len(DETAILS)] % n, is_breaking=False)
         raise AssertionError(beh)
 
     class Mw(Middleware):
